@@ -76,10 +76,37 @@ theorem C01_empty_partition_neutral (normalMax : Int) (n : Nat) (single : Bool) 
 
 /-- **a failed poll delivers nothing and skips nothing**: a partition error anywhere in the responses fails the poll
     with the consumer state exactly as before -/
-theorem C01_failed_poll_neutral {σ} (resps : List FetchResponse) (c : Int) (h : firstError resps = some c) (w : WC σ) (n : Nat) :
-    processResponses n resps w = (w, .err (.kafka c)) := by
+theorem C01_failed_poll_neutral {σ} (resps : List FetchResponse) (w : WC σ) (e : Err) (h : preScan w.cons resps = some e) (n : Nat) :
+    processResponses n resps w = (w, .err e) := by
   unfold processResponses
   simp [h]
+
+/-- … and a partition error anywhere in the responses does fail the poll -/
+theorem firstError_fails (c : Consumer) (resps : List FetchResponse) (code : Int) (h : firstError resps = some code) :
+    ∃ e, preScan c resps = some e := by
+  unfold firstError at h
+  unfold preScan
+  obtain ⟨p, hp, hpd⟩ := List.exists_of_findSome?_eq_some h
+  obtain ⟨r, hr, hp⟩ := List.mem_flatMap.mp hp
+  obtain ⟨t, ht, hp⟩ := List.mem_flatMap.mp hp
+  have hmem : t ∈ resps.flatMap fun r => r.topics := List.mem_flatMap.mpr ⟨r, hr, ht⟩
+  have hsome : (preScanTopic c t).isSome := by
+    unfold preScanTopic
+    cases topicRef c.assignments t.topic with
+    | none => rfl
+    | some tr =>
+      simp only []
+      rw [List.findSome?_isSome_iff]
+      refine ⟨p, hp, ?_⟩
+      cases hd : p.data with
+      | error k => rfl
+      | ok v => simp [partErr, hd] at hpd
+  cases hf : (resps.flatMap fun r => r.topics).findSome? (preScanTopic c) with
+  | some e => exact ⟨e, rfl⟩
+  | none =>
+    rw [List.findSome?_eq_none_iff] at hf
+    have := hf t hmem
+    simp [this] at hsome
 
 /-- a poll whose fetch fails (I/O, decode error) leaves fetch offsets, retry queue and marks as they were -/
 theorem C01_fetch_failure_neutral {σ} (env : Env σ) (w : WC σ) (hret : w.cons.retry = [])
@@ -160,7 +187,7 @@ theorem C01_empty_flag {σ} (n : Nat) (resps : List FetchResponse) (w w' : WC σ
     (h : processResponses n resps w = (w', .ok r)) : r.empty = true ↔ iterate r.responses = [] := by
   unfold processResponses at h
   simp only at h
-  cases hfe : firstError resps with
+  cases hfe : preScan w.cons resps with
   | some c => simp [hfe] at h
   | none =>
     simp only [hfe] at h
